@@ -61,6 +61,7 @@ typedef struct {
 	size_t cap;
 	int null_start;      /* first call gets { NULL, 0 } */
 	int mode, k;
+	size_t cap0;
 	size_t loops, loopmax;
 } raw_enc;
 
@@ -148,13 +149,14 @@ static void raw_init(raw_enc *e, int fmt, vf_rng *r, size_t total)
 	if (e->null_start) e->cap = 0;
 	else { e->out = vf_xalloc(e->cap); memset(e->out, 0xEE, e->cap); }
 	e->loopmax = 8 * (total + 8) + 64;
+	e->cap0 = e->cap;
 }
 /* returns 0, or the (negative) refusal of the encoder */
 static ssize_t raw_push(raw_enc *e, const uint8_t *ptr, size_t len)
 {
 	while (len) {
 		ssize_t r = raw_call(e, ptr, len, 0);
-		if (r == MPT_ERROR(MissingBuffer)) { raw_grow(e, len + len / 200 + 3); continue; }
+		if (r == MPT_ERROR(MissingBuffer)) { vf_count("raw:missing-buffer-on-push", 1); raw_grow(e, len + len / 200 + 3); continue; }
 		if (r < 0) return r;
 		if (!r) {
 			/* nothing consumed and no request for space: only more space can help */
@@ -171,7 +173,7 @@ static ssize_t raw_term(raw_enc *e)
 {
 	while (1) {
 		ssize_t r = raw_call(e, 0, 0, 1);
-		if (r == MPT_ERROR(MissingBuffer)) { raw_grow(e, 3); continue; }
+		if (r == MPT_ERROR(MissingBuffer)) { vf_count("raw:missing-buffer-on-terminate", 1); raw_grow(e, 3); continue; }
 		return r;
 	}
 }
@@ -253,6 +255,10 @@ static void frame_check(int fmt, const char *drv, const uint8_t *f, size_t flen,
 	}
 	vf_count("monitor:frame-shape+reference-decode", 1);
 	vf_count(cnt_frames[fmt], 1);
+	if (rc_seen.inline_tail) vf_count("state:frame-with-inlined-tail", 1);
+	if (rc_seen.pairs) vf_count("state:frame-with-zero-pair-code", 1);
+	if (rc_seen.full_blocks) vf_count("state:frame-with-full-block", 1);
+	if (rc_seen.blocks > 2) vf_count("state:frame-with-3+-blocks", 1);
 }
 
 /* ------------------------------------------------------------------ case */
@@ -362,6 +368,7 @@ static void run_case(ccase *c, vf_rng *r)
 				rr = mpt_array_push(&a.arr, l, src);
 				if (vf_logging) vf_log("%s array push(len=%zu) -> %zd  done=%zu scratch=%zu", rc_name[fmt], l, rr, a.arr._state.done, a.arr._state.scratch);
 				vf_xfree(src, l);
+				if (a.arr._d._buf && a.arr._d._buf->_used == a.arr._d._buf->_size) vf_count("state:array-buffer-exactly-full", 1);
 				if (rr < 0 || (size_t) rr != l) { refused = rr < 0 ? (int) rr : -1000 - (int) rr; break; }
 				pos = cut[p];
 			}
@@ -406,17 +413,23 @@ static void run_case(ccase *c, vf_rng *r)
 		}
 		if (cnt) decode_check(fmt, drv, frames, flen, cnt, r, c->nvariants);
 	}
-	if (c->driver == 0) vf_xfree(e.out, e.cap);
+	size_t cap0 = 0; int capmode = 0, nullstart = 0;
+	if (c->driver == 0) { cap0 = e.cap0; capmode = e.mode; nullstart = e.null_start; vf_xfree(e.out, e.cap); }
 	else mpt_encode_array_fini(&a.arr);
 	nontrivial_note(c, flen);
-	if (c->driver == 0) {
-		vf_sample("%s via raw encoder (capacity start %zu, growth %s): %u message(s), first %zu bytes %s split kind %d -> %zu frame bytes", rc_name[fmt],
-		          (size_t) 0, capname[e.mode], c->nmsg, c->mlen[0] == (size_t) -1 ? 0 : c->mlen[0],
-		          vf_hex(hx1, 80, c->msg[0], c->mlen[0] == (size_t) -1 ? 0 : c->mlen[0]), c->split[0], flen);
-	} else {
-		vf_sample("%s via mpt_array_push: %u message(s), first %zu bytes %s split kind %d -> %zu frame bytes", rc_name[fmt],
-		          c->nmsg, c->mlen[0] == (size_t) -1 ? 0 : c->mlen[0],
-		          vf_hex(hx1, 80, c->msg[0], c->mlen[0] == (size_t) -1 ? 0 : c->mlen[0]), c->split[0], flen);
+	{
+		unsigned first = 0;
+		while (first + 1 < c->nmsg && (c->mlen[first] == (size_t) -1 || c->mlen[first] < 3)) first++;
+		size_t ml = c->mlen[first] == (size_t) -1 ? 0 : c->mlen[first];
+		if (ml > 2 && (c->split[first] || memchr(c->msg[first], 0, ml))) {
+			if (c->driver == 0) {
+				vf_sample("%s via raw encoder (capacity start %zu%s, growth %s): %u message(s); message %u = %zu bytes %s pushed with split kind %d; %zu frame bytes decoded one-shot, byte-wise and by PRNG schedule",
+				          rc_name[fmt], cap0, nullstart ? " NULL block" : "", capname[capmode], c->nmsg, first, ml, vf_hex(hx1, 100, c->msg[first], ml), c->split[first], flen);
+			} else {
+				vf_sample("%s via mpt_array_push: %u message(s); message %u = %zu bytes %s pushed with split kind %d; %zu frame bytes decoded one-shot, byte-wise and by PRNG schedule",
+				          rc_name[fmt], c->nmsg, first, ml, vf_hex(hx1, 100, c->msg[first], ml), c->split[first], flen);
+			}
+		}
 	}
 }
 
